@@ -118,7 +118,7 @@ def run(F, ck, tier):
                         c1 = set()
                         for x in flow.flat(fr[1]):
                             if x.startswith('p:') and x[2:].split('.')[0] != 'self':
-                                c1.add(x[2:].split('.')[0])
+                                c1.add(x[2:].split('.')[0].replace('[]', ''))
                             elif x.startswith('c:') and x.split('::')[-1] in ('is_one', 'is_zero'):
                                 c1.add(x.split('::')[-1])
                         frames.append(frozenset(c1))
@@ -138,6 +138,9 @@ def run(F, ck, tier):
     ck.rule('R01.6', 'in the prover\'s quotient computation the next-row offset (in the quotient coset) times the step used to read committed oracles is exactly 1 << rate_bits (exponents added as polynomials)')
     from . import stride
     ck.floor('R01.6', 'next-row index sites in compute_quotient_polys', stride.check(F, ck, 'R01.6', 'compute_quotient_polys', 'plonky2'), 1)
+    ck.rule('R01.7', 'honest lookups can be proved: the padding of a partially filled lookup row uses fewer slots than a row has, and the table generator fills the rows the builder allocated (R08.9 and R08.11 of C08, which are completeness conditions)')
+    from . import c08, report
+    c08.run(F, report.FilterProxy(ck, {'R08.9': 'R01.7', 'R08.11': 'R01.7'}), tier)
     ck.decided += ['generators read only declared dependencies', 'prover/verifier transcript agreement', 'prover quotient domain consistency', 'base/extension folding shortcuts agree']
     ck.undecided += ['that proving succeeds and outputs are right for all programs, inputs and configurations (behavioural)', 'gadget arithmetic correctness']
     return 'Decides a few structural necessary conditions of C01 (generator dependency discipline, transcript agreement, quotient-domain consistency, sibling shortcut agreement). The behavioural statement is not decided.'
